@@ -72,3 +72,29 @@ fn d05_container_write_returns_size() {
     let n = moof.write_box(&mut v).unwrap();
     assert_eq!(n, v.len() as u64);
 }
+
+/// D-33: AvcProfile::try_from computed constraint_set1_flag as `(b & 0x40) >> 7`, which is always 0
+#[test]
+fn d33_avc_constrained_baseline() {
+    use std::convert::TryFrom;
+    assert_eq!(AvcProfile::try_from((66u8, 0x40u8)).unwrap(), AvcProfile::AvcConstrainedBaseline);
+    assert_eq!(AvcProfile::try_from((66u8, 0xC0u8)).unwrap(), AvcProfile::AvcConstrainedBaseline);
+    assert_eq!(AvcProfile::try_from((66u8, 0x80u8)).unwrap(), AvcProfile::AvcBaseline);
+    assert_eq!(AvcProfile::try_from((66u8, 0x00u8)).unwrap(), AvcProfile::AvcBaseline);
+}
+
+/// D-08: escape-coded AAC audio object type: 32 + 6 bits, the upper three of which sit in the low bits of the first byte
+#[test]
+fn d08_extended_audio_object_type() {
+    let b = Mp4aBox::new(&AacConfig::default());
+    let mut v = Vec::new();
+    b.write_box(&mut v).unwrap();
+    // DecoderSpecific descriptor: tag 0x05, length 0x02, then the two AudioSpecificConfig bytes, then the SL descriptor (tag 0x06)
+    let i = (0..v.len() - 4).find(|&i| v[i] == 0x05 && v[i + 1] == 0x02 && v[i + 4] == 0x06).expect("decoder specific descriptor");
+    v[i + 2] = 0b11111_001; // escape 31, extension bits 001...
+    v[i + 3] = 0b010_0100_0; // ...010 -> 32 + 0b001010 = 42 (USAC); frequency index 4
+    let mut c = Cursor::new(v);
+    let h = BoxHeader::read(&mut c).unwrap();
+    let out = Mp4aBox::read_box(&mut c, h.size).unwrap();
+    assert_eq!(out.esds.unwrap().es_desc.dec_config.dec_specific.profile, 42);
+}
